@@ -1091,13 +1091,14 @@ class Interp:
             return self.summaries[info.qualname](self, args, kwargs)
         bound = self.bind_args(fref, args, kwargs)
         if fref.cached:
-            from .freeze import freeze as _fz
-
-            ckey = (info.qualname, _fz(list(bound.values())))
+            # functools.cache / lru_cache: a hit is decided by == and hash of the arguments (for rdflib terms that is
+            # rdflib's own equality, e.g. language tags compared case-insensitively), not by structural identity
             cache = self.__dict__.setdefault("_fn_cache", {})
-            if ckey in cache:
-                self.emit("cache_hit", func=info.qualname)
-                return cache[ckey]
+            cargs = list(bound.values())
+            for old_args, old_res in cache.get(info.qualname, []):
+                if len(old_args) == len(cargs) and all(a is b or self.eq(a, b) is True for a, b in zip(old_args, cargs)):
+                    self.emit("cache_hit", func=info.qualname)
+                    return old_res
         env = Env(bound, fref.env, info.module, info, info.defining_class)
         node = info.node
         self.emit("call", func=info.qualname, module=info.module, args=bound)
@@ -1118,7 +1119,7 @@ class Interp:
 
         res = self._with_frame(info, run)
         if fref.cached:
-            self._fn_cache[ckey] = res
+            self._fn_cache.setdefault(info.qualname, []).append((cargs, res))
         return res
 
     def _with_frame(self, info: FunctionInfo, thunk: Callable[[], Any]) -> Any:
